@@ -22,7 +22,7 @@ import SphericalVerif.Lemmas.DHom
       * `D_inverse_ell*`          𝔇(R̄)_{m',m} = conj 𝔇(R)_{m,m'}
       * `D_neg_ell*`              𝔇(−R) = 𝔇(R)
       * `rotation_matrix_ell1`    (C19) `f @ 𝔇¹(R̄)` on the weights of a real vector v = the weights of R v R̄
-    NOT proved: any of these for ℓ ≥ 3 (the model is only identified with the documented sum for ℓ ≤ 2). -/
+    For ℓ ≥ 3 the model is identified with the documented sum in `Props/DAll.lean`; the group laws of the documented sum for every ℓ are the subject of `Props/DocHom.lean`. -/
 noncomputable section
 namespace DHom
 open Model Model.Ops Spec Horner DDef DDef2
